@@ -441,7 +441,9 @@ def build_mesh_bvh(
   indices = indices.flatten()
   pmin = np.min(points, axis=0)
   pmax = np.max(points, axis=0)
-  half = 0.5 * (pmax - pmin)
+  # the leaf box is centred on the geom frame origin, which is the mesh's centre of mass and not the centre
+  # of its vertex bounding box: take the half extent that contains every vertex
+  half = np.maximum(np.abs(pmin), np.abs(pmax))
 
   points = wp.array(points, dtype=wp.vec3)
   indices = wp.array(indices, dtype=wp.int32)
